@@ -400,9 +400,7 @@ func (e *encoderState) WriteToken(t Token) error {
 			break
 		}
 		e.Names.push()
-		if !e.Flags.Get(jsonflags.AllowDuplicateNames) {
-			e.Namespaces.push()
-		}
+		e.Namespaces.push()               // always, so that it stays aligned with Names should AllowDuplicateNames change
 		e.Flags.Clear(jsonflags.TagFlags) // tags only apply to current depth
 	case '}':
 		b = append(b, '}')
@@ -410,9 +408,7 @@ func (e *encoderState) WriteToken(t Token) error {
 			break
 		}
 		e.Names.pop()
-		if !e.Flags.Get(jsonflags.AllowDuplicateNames) {
-			e.Namespaces.pop()
-		}
+		e.Namespaces.pop() // always, so that it stays aligned with Names should AllowDuplicateNames change
 	case '[':
 		b = append(b, '[')
 		err = e.Tokens.pushArray()
